@@ -14,7 +14,7 @@ ID = "C13"
 LEVEL = "exploration"
 RULE = ("Hypothesis-generated histories (<=15 ops) over a fresh hierarchy A<-B<-C, B2(A), diamond D(B,B2) with generated declarations: "
         "namespace reads (list/param[n]/values()/repr/objects, which populate caches), class-level sets at every level, "
-        "add_parameter at every level (new or existing names, via class or instance namespace), instance creation and "
+        "rejected class-level sets, class-level assignment of Parameter objects, add_parameter at every level (new or existing names, via class or instance namespace), instance creation and "
         "instance sets; invariant after every op: static MRO lookup == .param view (names, identity, default, "
         "values(), repr, watch, serialization). Non-trivial = a namespace of K was read before a later op changed K or an "
         "ancestor of K at class level; distinct = distinct case hash.")
@@ -57,6 +57,8 @@ def _ops():
         st.tuples(st.just("read"), _cls, st.sampled_from(["list", "getitem", "values", "objects", "contains", "inst_values", "repr"])),
         st.tuples(st.just("cls_set"), _cls, _name, _small),
         st.tuples(st.just("cls_set"), _cls, _name, _small),
+        st.tuples(st.just("cls_set_bad"), _cls, _name3),
+        st.tuples(st.just("cls_assign_param"), _cls, _name, _kind, _small),
         st.tuples(st.just("add"), _cls, _name, _kind, _small, st.booleans()),
         st.tuples(st.just("add"), _cls, _name, _kind, _small, st.booleans()),
         st.tuples(st.just("new"), _cls),
@@ -226,6 +228,29 @@ def execute(case):
             setattr(K, n, _val(kind_of(stat[n]), op[3]))
             if vars(K).get(n) is not None and stat[n] is not vars(K)[n]:
                 res.label("cls_set_copies_inherited")
+        elif name == "cls_set_bad":
+            # a class-level assignment the Parameter rejects (wrong type): whatever it leaves behind, the namespace
+            # must keep agreeing with attribute access - also after later, accepted assignments
+            K = classes[op[1]]
+            stat = _static(K)
+            n = NAMES[op[2]]
+            if n not in stat:
+                continue
+            try:
+                setattr(K, n, 5 if kind_of(stat[n]) == "str" else "not-a-number")
+            except ValueError:
+                res.label("rejected_class_level_set" + ("_on_inherited" if n not in vars(K) or stat[n] is not vars(K).get(n) else ""))
+            else:
+                res.dontcare += 1
+        elif name == "cls_assign_param":
+            # a class-level assignment whose value is a Parameter object (the metaclass documents it as (re)declaring it)
+            K = classes[op[1]]
+            n = NAMES[op[2]]
+            if any(k in read_classes for k in classes if k is K or K in parents[k]):
+                nontrivial = True
+                res.label("read_before_class_change")
+            setattr(K, n, _mk(op[3], op[4]))
+            res.label("class_level_assignment_of_parameter_object")
         elif name == "add":
             K = classes[op[1]]
             n = NAMES[op[2]]
